@@ -113,6 +113,33 @@ theorem sorted_even_on_error (rs : List (Rule τ)) (ss : States rs) (f : FileIn 
     · exact List.Pairwise.nil
     · exact report_sorted _ _
 
+/-- Lexicographic "not greater" on keys (line, column, rule id). -/
+def keyLe (a b : Nat × Nat × String) : Prop :=
+  a.1 < b.1 ∨ (a.1 = b.1 ∧ (a.2.1 < b.2.1 ∨ (a.2.1 = b.2.1 ∧ a.2.2 ≤ b.2.2)))
+
+theorem le_iff_keyLe (a b : Rep) : Rep.le a b = true ↔ keyLe a.key b.key := le_iff a b
+
+theorem keyLe_antisymm {a b : Nat × Nat × String} (h1 : keyLe a b) (h2 : keyLe b a) : a = b := by
+  obtain ⟨a1, a2, a3⟩ := a
+  obtain ⟨b1, b2, b3⟩ := b
+  simp only [keyLe] at h1 h2
+  rcases h1 with h1 | ⟨e1, h1 | ⟨e2, h1⟩⟩ <;> rcases h2 with h2 | ⟨f1, h2 | ⟨f2, h2⟩⟩ <;> try omega
+  subst e1 e2
+  rw [String.le_antisymm h1 h2]
+
+/-- **Determinism of what the user sees**: the sequence of (line, column, rule id) printed for a
+file does not depend on the order in which the rules happened to collect their reports — any
+permutation of the collected reports prints the same positions in the same order. -/
+theorem printed_keys_order_independent (p : Pragmas) {reps reps' : List Rep} (h : reps.Perm reps') :
+    (printed p reps).map Rep.key = (printed p reps').map Rep.key := by
+  have hp : (printed p reps).Perm (printed p reps') :=
+    (report_perm p reps).trans ((h.filter _).trans (report_perm p reps').symm)
+  have s1 : ((printed p reps).map Rep.key).Pairwise keyLe :=
+    List.pairwise_map.mpr ((report_sorted p reps).imp fun h => (le_iff_keyLe _ _).mp h)
+  have s2 : ((printed p reps').map Rep.key).Pairwise keyLe :=
+    List.pairwise_map.mpr ((report_sorted p reps').imp fun h => (le_iff_keyLe _ _).mp h)
+  exact List.Perm.eq_of_pairwise (fun a b _ _ => keyLe_antisymm) s1 s2 (hp.map _)
+
 -- executable sanity check (a test, evaluated at build time, not a theorem): three reports
 -- collected out of order, one suppressed by a pragma aimed at line 3
 #guard printed ⟨[(3, ["md009"])], []⟩
